@@ -69,6 +69,41 @@ def lines_of(text):
     return ls
 
 
+def huge_case(rng):
+    """a sentence of several hundred tokens (node numbers reach and pass 500 tokens): the writers against the model.
+    (The specification decoder used by the predicates numbers tokens and constituents in one table and is defined for
+    fewer than 500 tokens; beyond that only the comparison with the model is made.)"""
+    from impl import mk_leaf, mk_node
+    n = rng.choice([120, 499, 500, 501, 520, 640])
+    kids = []
+    i = 1
+    while i <= n:
+        k = min(rng.randint(1, 6), n - i + 1)
+        kids.append(mk_node(rng.choice(["NP", "PP", "VP"]), [mk_leaf(i + j, "NN", "w%d" % (i + j), "--", "--", rng.choice(["NK", "HD"])) for j in range(k)],
+                            edge="--", lemma="--", morph="--"))
+        i += k
+    t = mk_node("VROOT", [mk_node("S", kids, edge="--", lemma="--", morph="--")], edge="--", lemma="--", morph="--")
+    t.data['sid'] = 7
+    a = proto.enc_tree(t)
+    lines = []
+    for fmt, opts in (("export", {}), ("export", {"export_four": True}), ("tigerxml", {}), ("brackets", {})):
+        work = clone(t)
+        work.data['sid'] = 7
+        text, err = run_writer(fmt, work, opts)
+        if fmt == "brackets":
+            out = proto.enc_s(text[:-1]) if err is None else err
+            lines.append(Line("corr", "write_brackets", [proto.enc_opts(opts), a], out))
+        elif fmt == "export":
+            out = gram.enc_lines(lines_of(text)) if err is None else err
+            lines.append(Line("corr", "write_export", [proto.enc_opts(opts), "7", a], out))
+            if err is None and n < 500:
+                lines.append(Line("pred", "P.C02.export", [proto.enc_opts(opts), "7", a, out]))
+        else:
+            out = gram.enc_lines(lines_of(text)) if err is None else err
+            lines.append(Line("corr", "write_tigerxml", ["7", a], out))
+    return Case("huge", {"tokens": n}, lines, nontrivial=True, tags=["huge"])
+
+
 def one(rng):
     fmt = rng.choice(["export", "export", "brackets", "discobrackets", "tigerxml", "terminals"])
     t, marked = mk_tree(rng, cont=(fmt == "brackets" and rng.random() < 0.75))
@@ -169,6 +204,8 @@ def one(rng):
 
 
 def gen(seed, tier, scale):
+    for i in range((3 if tier == "quick" else 40) * scale):
+        yield 800000 + i, huge_case(case_rng(seed, ID, 800000 + i))
     idx = 0
     for _ in range((3000 if tier == "quick" else 60000) * scale):
         rng = case_rng(seed, ID, idx)
